@@ -112,9 +112,12 @@ def run_case(res: Result, spec, idx):
                 del entered_finals[:]
 
             exited_in_bracket = set()
+            marker_ev = {}
             for r in rec.log[st.log_from:]:
                 if r[0] == "act":
                     last_cfg = r[3]
+                    if r[1][:3] == "tr.":
+                        marker_ev[r[1]] = r[2]
                     if r[1][:3] == "ex." and r[1].endswith(".a"):
                         exited_in_bracket.add(r[1][3:-2])
                     if r[1][:3] == "en." and r[1].endswith(".a"):
@@ -143,7 +146,7 @@ def run_case(res: Result, spec, idx):
                             if ent["opt"] and fin is None:
                                 res.count("firings.optional(grandchild-final-or-uncompleted)")
                             # done data (compound only)
-                            ev = _event_of(rec.log, st.log_from, tr.marker)
+                            ev = marker_ev.get(tr.marker)
                             if node.kind == "compound" and fin is not None and ev is not None:
                                 res.count("done-data.checked")
                                 if getattr(ev, "data", None) != fin.output:
